@@ -50,7 +50,15 @@ def gen_case(seed, i):
         d = rng.choice(roots) + rng.choice(["", "/sub"])
         kind = rng.choice(["file", "file", "outfile", "dir", "dangling"])
         if kind == "file":
-            w.add_symlink("%s/s%d" % (d, k), "@ROOT@/" + rng.choice(files))
+            t = rng.choice(files)
+            r_ = rng.random()
+            if r_ < 0.25:
+                # absolute but not canonical: through the directory link of its root, or out of a directory and back
+                t = "L%d/%s" % (roots.index(t.split("/")[0]) + 1, t.split("/", 1)[1])
+            elif r_ < 0.4 and t.count("/") >= 2:
+                d_, n_ = t.rsplit("/", 1)
+                t = d_ + "/../" + d_.rsplit("/", 1)[1] + "/" + n_
+            w.add_symlink("%s/s%d" % (d, k), "@ROOT@/" + t)
         elif kind == "outfile":
             outs = [e["p"] for e in w.entries if e["p"].startswith("out/")]
             if outs:
